@@ -3,6 +3,8 @@ package kvh
 import (
 	"encoding/binary"
 	"hash/fnv"
+
+	"github.com/valyala/bytebufferpool"
 )
 
 // GenValue returns n bytes that are a pure function of (seed, n). Every write
@@ -113,4 +115,29 @@ func itoa(n int) string {
 		b[i] = '-'
 	}
 	return string(b[i:])
+}
+
+// PoisonPools overwrites the whole capacity of up to n buffers of the byte
+// buffer pool the engine draws from (the package-level bytebufferpool) and
+// hands them back. Code that reads a pooled buffer beyond the length it has
+// filled then sees this pattern instead of the bytes a previous, successful
+// read of the same record happened to leave there - without it such a read can
+// return the right value by luck. Correct code never looks beyond the length,
+// so this has no effect on it.
+func PoisonPools(n int) {
+	// the engine's private pool of 32 KiB block buffers, through its verif hook
+	poisonBlockPool(n)
+	bs := make([]*bytebufferpool.ByteBuffer, 0, n)
+	for i := 0; i < n; i++ {
+		b := bytebufferpool.Get()
+		full := b.B[:cap(b.B)]
+		for j := range full {
+			full[j] = 0xA5
+		}
+		bs = append(bs, b)
+	}
+	for _, b := range bs {
+		b.Reset()
+		bytebufferpool.Put(b)
+	}
 }
